@@ -2,7 +2,7 @@
 (* Exhaustive / simulation instance of Traversal over a library of response graphs. *)
 EXTENDS Traversal, Json
 
-CONSTANTS Graph, K, Alpha, Target
+CONSTANTS Graph, K, Alpha, Target, GenHist
 
 VARIABLES late,  \* the late AddNodes call has happened
           hist   \* environment actions so far (schedule generator only; constant <<>> otherwise)
@@ -52,8 +52,8 @@ G4 == [addrs |-> {"a","b","c","d","e"},
 
 G == CASE Graph = "g1" -> G1 [] Graph = "g2" -> G2 [] Graph = "g3" -> G3 [] Graph = "g4" -> G4
 
-H(x) == hist' = IF hist = <<>> /\ FALSE THEN hist ELSE hist   \* placeholder, overridden below
-Log(x) == hist' = hist
+\* environment actions are appended to hist only when generating schedules
+Rec(x) == hist' = IF GenHist THEN Append(hist, x) ELSE hist
 Base(A) == A /\ UNCHANGED <<late, hist>>
 
 Init == /\ cfg = [k |-> K, alpha |-> Alpha, target |-> Target, bad |-> G.bad, badp |-> G.badp]
@@ -65,19 +65,19 @@ Init == /\ cfg = [k |-> K, alpha |-> Alpha, target |-> Target, bad |-> G.bad, ba
         /\ qcount = [a \in G.addrs |-> 0] /\ learned = {} /\ responders = {} /\ eligible = {}
         /\ late = FALSE /\ hist = <<>>
 
-AddSeeds == learned = {} /\ AddNodes(G.seeds) /\ UNCHANGED <<late, hist>>
-AddLate == learned # {} /\ ~late /\ G.late # {} /\ AddNodes(G.late) /\ late' = TRUE /\ UNCHANGED hist
-StopE == learned # {} /\ Stop /\ UNCHANGED <<late, hist>>
+AddSeeds == learned = {} /\ AddNodes(G.seeds) /\ UNCHANGED late /\ Rec([a |-> "seeds"])
+AddLate == learned # {} /\ ~late /\ G.late # {} /\ AddNodes(G.late) /\ late' = TRUE /\ Rec([a |-> "late"])
+StopE == learned # {} /\ Stop /\ UNCHANGED late /\ Rec([a |-> "stop"])
+ConsWaitE == ConsWait /\ UNCHANGED late /\ Rec([a |-> "wait"])
+ReturnE == \E q \in qs : QueryReturn(q, G.net[q.addr]) /\ UNCHANGED late /\ Rec([a |-> "ret", addr |-> q.addr, cid |-> q.cid])
 
 Internal == \/ RunCheck \/ RunEval \/ RunCapture \/ RunWake \/ RunDeliver \/ ConsGotClosed
             \/ \E c \in unq : StartQuery(c)
             \/ \E q \in qs : CtxCancel(q) \/ PostClosest(q) \/ PostNodes(q) \/ PostDone(q)
             \/ StopIter \/ StopWake
-Env == \/ ConsWait
-       \/ \E q \in qs : QueryReturn(q, G.net[q.addr])
 
-Next == \/ AddSeeds \/ AddLate \/ StopE \/ Base(Internal) \/ Base(Env)
-NextNoStop == \/ AddSeeds \/ AddLate \/ Base(Internal) \/ Base(Env)
+Next == \/ AddSeeds \/ AddLate \/ StopE \/ ConsWaitE \/ ReturnE \/ Base(Internal)
+NextNoStop == \/ AddSeeds \/ AddLate \/ ConsWaitE \/ ReturnE \/ Base(Internal)
 
 Spec == Init /\ [][Next]_mcvars
 
@@ -86,13 +86,17 @@ Fair == /\ WF_mcvars(Base(RunCheck)) /\ WF_mcvars(Base(RunEval)) /\ WF_mcvars(Ba
         /\ WF_mcvars(Base(StopIter)) /\ WF_mcvars(Base(StopWake))
         /\ WF_mcvars(AddSeeds)
         /\ WF_mcvars(Base(\E c \in unq : StartQuery(c)))
-        /\ WF_mcvars(Base(\E q \in qs : QueryReturn(q, G.net[q.addr])))
+        /\ WF_mcvars(ReturnE)
         /\ WF_mcvars(Base(\E q \in qs : CtxCancel(q)))
         /\ WF_mcvars(Base(\E q \in qs : PostClosest(q)))
         /\ WF_mcvars(Base(\E q \in qs : PostNodes(q)))
         /\ WF_mcvars(Base(\E q \in qs : PostDone(q)))
 FairSpec == Init /\ [][Next]_mcvars /\ Fair
 FairSpecNoStop == Init /\ [][NextNoStop]_mcvars /\ Fair
+
+\* history / observation variables are hidden from the fingerprint
+View == <<unq, queried, closest, qs, stopping, stopped, run, runSig, stp, stpSig, cons, offered, late,
+          qcount, learned, eligible>>
 
 \* C02, honest-network clause (graph g2): the stalled result is exactly the K closest
 HonestResult == (Graph = "g2" /\ run.offer /\ run.pc = "select" /\ ~runSig /\ learned # {})
